@@ -19,6 +19,7 @@ var c09Builtins = []string{"string", "length", "substring", "substringBefore", "
 // argument kinds as expression texts over c09Doc (type-chaotic placement)
 var c09Args = []string{
 	"nothing", "n", "0", "-1.5", "s", `""`, `"$99999999999999999999"`, `"0.0e0"`, `"[Y]-[M01]"`, `"+0100"`, "true", "null", "[]", "arr1", "arr2", "{}", "obj1", "$sum", "function($x){$x}", "/a/", "objs", `"#,##0.00"`, "function($a, $b){$b.nothing}",
+	"objs[2]", // a JSON null inside an array
 	`function($s){{"match": "a", "start": 5, "end": 9, "groups": [], "next": function(){$nothing}}}`, // a hand-written matcher with indexes outside the string
 }
 
@@ -26,7 +27,7 @@ func c09Doc() map[string]interface{} {
 	return map[string]interface{}{
 		"n":    3.0,
 		"s":    "héllo a",
-		"arr1": []interface{}{2.0},
+		"arr1": append(make([]interface{}, 0, 4), 2.0), // spare capacity, as decoded JSON arrays have
 		"arr2": []interface{}{[]interface{}{2.0}},
 		"obj1": map[string]interface{}{"a": 1.0},
 		"objs": []interface{}{map[string]interface{}{"a": 1.0, "b": "x"}, map[string]interface{}{"a": "z"}, nil, []interface{}{}},
@@ -124,6 +125,8 @@ var c09NodeTemplates = []string{
 	"X.Y", "X[Y]", "X{Y: X}", "X^(Y)", "X ~> Y", "X ? Y : X", "[X..Y]", "X & Y", "-X", "X(Y)", "X.*", "X.**", "X.*.Y", "X[Y][X]", "(X; Y)", "[X, Y]", `{"k": X, "j": Y}`, "X = Y", "X < Y", "X in Y",
 	"X and Y", "X + Y", "X.Y[0]", "$ ~> |X|Y|", "$ ~> |X|Y, X|", "X.$keys()", "$keys(X).Y", "$distinct([X, Y])", "X[].Y", "X.Y[]", "$map(X, Y)", "X.(Y)", "($v := X; $v.Y)", "X(?, Y)(X)",
 	"function($a)<n+>{$a}(Y)", "function($a, $b)<a<n>s?:n>{$a}(X, Y)", "$type($lookup(X, Y))", "X ~> Y ~> X", "X^(>Y, <X)", "X{Y: $sum(X)}",
+	// function values that have been through built-ins which copy their members
+	"$distinct([X])[0](Y)", "Y ~> $distinct([X, 1])[0]", "$map($distinct([X]), function($g){$g(Y)})", "$append(X, Y)[0](Y)", "$reverse([X, Y])[1](Y)", "$map(X, $type)", "$map([X, Y], $string)",
 }
 
 // VerifH_C09_Nodes: every node type with sub-expressions of every kind in every slot.
@@ -188,7 +191,7 @@ func VerifH_C09_NumericEdges() {
 // VerifH_C10_EvalBytes: EvalBytes succeeds exactly when decoding and Eval succeed, returns the JSON
 // encoding of the same value, and rejects input that is not valid JSON.
 func VerifH_C10_EvalBytes() {
-	exprs := []string{"a", "a.b", "$sum(arr)", "arr[0]", "nothing", "$", "{\"k\": arr}", "a.b & \"x\"", "$sum", "[a.b, null]", "arr.$string()", "1/0", "$keys($)"}
+	exprs := []string{"a", "a.b", "$sum(arr)", "arr[0]", "nothing", "$", "{\"k\": arr}", "a.b & \"x\"", "$sum", "[a.b, null]", "arr.$string()", "1/0", "$keys($)", `$ ~> |$|{"self": $}|`}
 	docs := []string{`{"a":{"b":1.5},"arr":[1,2,3]}`, `[1,"x",null,{"a":{"b":[true]}}]`, `"str"`, `null`, `{"a":`, ``, `{"arr":[1e308,1e308]}`, `tru`,
 		`{"a":{"b":1}} x`, `{"a":{"b":1}}{"a":{"b":2}}`, `[1,2]]`, `{"a":{"b":1}},`, " \n{\"a\":{\"b\":2}}\t "}
 	ex := exprs[verifChoose(len(exprs))]
@@ -206,6 +209,12 @@ func VerifH_C10_EvalBytes() {
 		return
 	}
 	v, eerr := e.Eval(in)
+	if ex == `$ ~> |$|{"self": $}|` {
+		// an update that refers to the matched object makes the result contain itself; own id: the
+		// port (like the reference implementation) returns that value (known finding)
+		verifAssert((berr == nil) == (eerr == nil), "evalbytes-succeeds-iff-eval-succeeds:transform-update-refers-to-match")
+		return
+	}
 	verifAssert((berr == nil) == (eerr == nil), "evalbytes-succeeds-iff-eval-succeeds")
 	if berr == nil && eerr == nil {
 		want, merr := json.Marshal(v)
